@@ -59,7 +59,7 @@ def _split_plane(rng, mode, shape):
         def mk(ls):
             sc = int(rng.choice([1, 1, 1, 2, -1]))          # raw mask entries other than 0/1: the constructor normalises them
             return {'kind': 'pupil', 'amp': amp, 'opd': opd, 'px': None, 'fl': 1.0,
-                    'mask': {'shape': [int(shape[0]), int(shape[1])], 'ndim': 2 if len(ls) == 1 else 3,
+                    'mask': {'shape': [int(shape[0]), int(shape[1])], 'ndim': (2 if rng.integers(0, 2) else 3) if len(ls) == 1 else 3,
                              'layers': [[int(x) * sc for x in L.ravel()] for L in ls]}}
         return mk(layers), mk([M])
     raise RuntimeError('could not build a partition')
